@@ -5,6 +5,7 @@ import (
 	"errors"
 	"fmt"
 	"io"
+	"sync/atomic"
 )
 
 // ErrInjected is the root of every injected stream error.
@@ -75,6 +76,7 @@ type Stream struct {
 	ZeroReadDelivered bool
 	CtxErrDelivered   bool
 	firstDone         bool
+	busy              int32
 	nilBuf            bool
 }
 
@@ -106,7 +108,31 @@ func (s *Stream) opCtx() context.Context {
 // Remaining bytes not yet delivered.
 func (s *Stream) Remaining() int { return len(s.Data) - s.Pos }
 
+// enter detects two operations on the stream at once under the sequential
+// driver, where the harness itself is a single goroutine: the second one can
+// only come from a goroutine started by the code under test.
+func (s *Stream) enter(what string) bool {
+	if s.Env.K1 != nil {
+		return true
+	}
+	if !atomic.CompareAndSwapInt32(&s.busy, 0, 1) {
+		s.Env.Misuse("stream " + s.Name + ": " + what + " while another operation on the same stream is in progress (a goroutine started by the code under test is using it)")
+		return false
+	}
+	return true
+}
+
+func (s *Stream) leave() {
+	if s.Env.K1 == nil {
+		atomic.StoreInt32(&s.busy, 0)
+	}
+}
+
 func (s *Stream) Read(p []byte) (int, error) {
+	if !s.enter("Read") {
+		return 0, &InjectedError{What: "concurrent use of the stream"}
+	}
+	defer s.leave()
 	var (
 		n         int
 		err       error
@@ -233,6 +259,10 @@ func (s *Stream) deliverTerm(err error) {
 }
 
 func (s *Stream) Close() error {
+	if !s.enter("Close") {
+		return &InjectedError{What: "concurrent use of the stream"}
+	}
+	defer s.leave()
 	op := s.Env.BeginUrgent(s.Name, "close", nil)
 	if s.Closed == 0 {
 		s.PosAtFirstClose = s.Pos
